@@ -179,6 +179,7 @@ type HarnessRun struct {
 	Resets      int
 	MaxAllocReq int64
 	vioKeys     map[string]bool
+	vioMore     map[string]int
 }
 
 func (x *Exec) noteFunc(fn *ssa.Function) {
@@ -521,6 +522,24 @@ func (x *Exec) modelReplay() []ndEvent {
 func (x *Exec) violate(kind, msg, pos string) {
 	key := kind + "|" + msg + "|" + pos
 	if x.h.vioKeys[key] {
+		// the same assertion fails on another path: its models are further candidates for the
+		// native replay (the first path's values may be ones for which an opaque operation
+		// happens to give the right answer natively)
+		if x.h.vioMore == nil {
+			x.h.vioMore = map[string]int{}
+		}
+		if x.h.vioMore[key] < 5 && (x.schedState == nil || !x.schedState.multi) {
+			if r := x.s.CheckPoison(x.s.Check()); r == Sat {
+				x.h.vioMore[key]++
+				for i := range x.h.Violations {
+					v := &x.h.Violations[i]
+					if v.Kind == kind && v.Msg == msg && v.Pos == pos && len(v.Alt) < 40 {
+						v.Alt = append(v.Alt, x.modelReplay())
+						v.Alt = append(v.Alt, x.altModels()...)
+					}
+				}
+			}
+		}
 		return
 	}
 	r := x.s.Check()
@@ -939,6 +958,19 @@ func (x *Exec) altModels() [][]ndEvent {
 			return false
 		}
 		return true
+	}
+	// the sign-bit-only pattern: MinInt for integers, -0.0 for floats (32 and 64 bit)
+	nsb := 0
+	for _, v := range vars {
+		if (v.w != 32 && v.w != 64) || nsb >= 4 {
+			continue
+		}
+		nsb++
+		base := x.s.level
+		if try(f.Eq(v, f.Const(v.w, uint64(1)<<uint(v.w-1)))) && x.s.CheckPoison(x.s.Check()) == Sat {
+			out = append(out, x.modelReplay())
+		}
+		x.s.PopTo(base)
 	}
 	for k := range wide {
 		for fam := 0; fam < 2; fam++ {
